@@ -186,6 +186,14 @@ def workload(tier, seed, scale=1.0):
                             cmds.append(cmd_sf('C01', op, ty, a, sv, 'U', cell=('sf', op, ty, 'U', n, fam, sv.bit_length())))
                         sa = rnd.choice((1, -1))
                         cmds.append(cmd_sf('C01', op, ty, sa * a, sv, 'I', cell=('sf', op, ty, 'I', sa * n, fam, sv.bit_length(), sv < 0)))
+    # Integer::inc / Integer::dec are an addition / subtraction of one reached only through the trait (0.dec() on a BigUint
+    # must panic like 0 - 1)
+    from ..oracles import cmd_par
+    for k in (0, 1, 2, 3, 5):
+        for v in sorted({0, 1, 2, (1 << (64 * k)), (1 << (64 * k)) - 1, (1 << (64 * k)) + 1, rand_digits(rnd, k, 0)}):
+            cmds.append(cmd_par(v, 'U', cell=('incdec', 'U', k, v == 0, v & (v + 1) == 0), prop='C01'))
+            for sg in (1, -1):
+                cmds.append(cmd_par(sg * v, 'I', cell=('incdec', 'I', sg * k, v == 0, v & (v + 1) == 0), prop='C01'))
     # seeded random fill
     nrand = int((3000 if tier == 'quick' else 20000) * scale)
     maxd = 200 if tier == 'quick' else 2000
